@@ -162,6 +162,18 @@ def directed_programs():
         ("long-arg-call-list", (g("vp_sink", "hit"), A.MARK, A.EMPTY_LIST, A.SBU("y" * 40), A.APPEND, A.SHORT_BINBYTES(b"z" * 64), A.TUPLE,
                                 A.REDUCE, A.STOP)),
         ("long-arg-obj", (A.MARK, g("vp_sink", "hit"), A.BINUNICODE("w" * 300), A.OBJ, A.STOP)),
+        # names that are valid identifiers but change under NFKC (fullwidth letters, decomposed accents, ligatures, the micro
+        # sign): the pickle VM takes them literally, Python's parser folds them when it reads source text
+        ("nfkc-module-fullwidth", (A.PROTO(4), A.SBU("\uff4f\uff53"), A.SBU("getpid"), A.STACK_GLOBAL, A.EMPTY_TUPLE, A.REDUCE, A.STOP)),
+        ("nfkc-module-nfd", (A.PROTO(4), A.SBU("mo\u0301dulo"), A.SBU("f"), A.STACK_GLOBAL, A.EMPTY_TUPLE, A.REDUCE, A.STOP)),
+        ("nfkc-attr-ligature", (A.PROTO(4), A.SBU("vp_sink"), A.SBU("pro\ufb01le"), A.STACK_GLOBAL, A.MARK, A.BININT1(1), A.TUPLE, A.REDUCE, A.STOP)),
+        ("nfkc-builtins-lookalike", (A.PROTO(4), A.SBU("\uff42uiltins"), A.SBU("eval"), A.STACK_GLOBAL, A.MARK, A.SBU("1+1"), A.TUPLE, A.REDUCE, A.STOP)),
+        ("nfkc-micro-sign-attr", (A.PROTO(4), A.SBU("vp_sink"), A.SBU("\u00b5"), A.STACK_GLOBAL, A.STOP)),
+        ("nfkc-newobj-ex-keywords", (A.PROTO(4), g("vp_sink", "KNewArgsEx"), A.BININT1(1), A.TUPLE1, A.EMPTY_DICT, A.MARK,
+                                     A.SBU("\u00b5"), A.BININT1(2), A.SBU("\ufb01"), A.BININT1(3), A.SBU("e\u0301"), A.BININT1(4), A.SBU("plain"),
+                                     A.BININT1(5), A.SETITEMS, A.NEWOBJ_EX, A.STOP)),
+        ("nfkc-build-state-keys", (A.PROTO(4), g("vp_sink", "K"), A.EMPTY_TUPLE, A.NEWOBJ, A.EMPTY_DICT, A.SBU("\u00b5"), A.BININT1(1),
+                                   A.SETITEM, A.BUILD, A.STOP)),
         ("nonident-global", (A.SBU("not an identifier"), A.SBU("x y"), A.STACK_GLOBAL, A.STOP)),
         ("nonident-quote", (A.SBU("a'b"), A.SBU("c"), A.STACK_GLOBAL, A.EMPTY_TUPLE, A.REDUCE, A.STOP)),
         ("dotted-attr", (A.SBU("vp_sink"), A.SBU("K.method"), A.STACK_GLOBAL, A.STOP)),
